@@ -31,3 +31,57 @@ Theorem C17_zero_config : forall B pref m n v,
   agg_config RN B pref (repeat (vzeroR n) m) = Ok v -> Forall (fun x => x = 0) v.
 Proof. exact config_zero_matrix. Qed.
 Print Assumptions C17_zero_config.
+
+(* ---- ConFIG and Aligned-MTL (added), from the kernel contracts ---- *)
+From TJ.proofs Require Import QPProofs ImpartialProofs.
+(* ConFIG: with the pseudo-inverse contract U B = I for the unit rows U (full row rank), non-zero
+   rows and positive weights w (ones by default): the cosine between every row and the output is
+   w_i / |B w| — EQUAL AND POSITIVE by default, proportional to the preference vector otherwise —
+   and the output's length is the sum of the projections of the rows on its direction *)
+Theorem C17_config : forall B pref J w,
+  J <> [] -> (forall g, In g J -> 0 < dotR g g) ->
+  (forall x, length x = length J -> mvR (config_units RN J) (mvR B x) = x) ->
+  pref_weights pref (sum_weights RN (length J)) (length J) = Ok w ->
+  (forall i, (i < length J)%nat -> 0 < nth i w 0) ->
+  let best := mvR B w in
+  let nb := sqrt (dotR best best) in
+  let u := vscaleR (1 / nb) best in
+  let L := vsumR (map (fun g => dotR g u) J) in
+  0 < nb /\
+  dotR u u = 1 /\
+  (forall i, (i < length J)%nat ->
+     dotR (nth i J []) u = sqrt (dotR (nth i J []) (nth i J [])) * nth i w 0 / nb) /\
+  0 < L /\
+  agg_config RN B pref J = Ok (vscaleR L u) /\
+  (forall i, (i < length J)%nat -> cosine (nth i J []) (vscaleR L u) = nth i w 0 / nb).
+Proof. exact config_equal_cosines. Qed.
+Print Assumptions C17_config.
+(* Aligned-MTL (full rank): with the eigendecomposition contract, the re-balanced rows are mutually
+   orthogonal and all of squared length lam_min, and A(J) is their combination with the weights *)
+Theorem C17_aligned : forall n J lam Vt tol,
+  let m := length J in
+  wfmat n J -> J <> [] -> length lam = m -> length Vt = m -> wfmat m Vt ->
+  0 <= tol -> (forall l, In l lam -> tol < l) ->
+  (forall k l, (k < m)%nat -> (l < m)%nat ->
+     dotR (nth k Vt []) (nth l Vt []) = if (k =? l)%nat then 1 else 0) ->
+  (forall i j, (i < m)%nat -> (j < m)%nat ->
+     dotR (column RN Vt i) (column RN Vt j) = if (i =? j)%nat then 1 else 0) ->
+  (forall k, (k < m)%nat -> mvR (gramR J) (nth k Vt []) = vscaleR (nth k lam 0) (nth k Vt [])) ->
+  let B := aligned_balance RN lam Vt tol in
+  let Ghat := mmul RN n B J in
+  length Ghat = m /\
+  (forall i, (i < m)%nat -> nth i Ghat [] = vmR n (nth i B []) J) /\
+  forall i j, (i < m)%nat -> (j < m)%nat ->
+    dotR (nth i Ghat []) (nth j Ghat []) = if (i =? j)%nat then last lam 0 else 0.
+Proof. exact aligned_rebalanced_rows. Qed.
+Print Assumptions C17_aligned.
+Theorem C17_aligned_output : forall n J lam Vt tol pref w,
+  let m := length J in
+  wfmat n J -> J <> [] -> length lam = m -> length Vt = m ->
+  (forall l, In l lam -> tol < l) ->
+  pref_weights pref (mean_weights RN m) m = Ok w ->
+  let B := aligned_balance RN lam Vt tol in
+  let Ghat := mmul RN n B J in
+  agg_aligned RN lam Vt tol pref J = Ok (vmR n w Ghat).
+Proof. exact aligned_is_combination_of_rebalanced. Qed.
+Print Assumptions C17_aligned_output.
